@@ -16,7 +16,7 @@ import os
 
 import vlib
 
-TAGS = ("CASE", "FMT", "FLAG", "TPFMT", "LVLFMT", "KINDFMT")
+TAGS = ("FORMS", "CASE", "FMT", "FLAG", "TPFMT", "LVLFMT", "KINDFMT")
 
 
 def run(ctx):
@@ -67,6 +67,11 @@ def run(ctx):
                        "seeded pairs, format->parse of seeded ids, no panic and agreement of all entry points on seeded "
                        "random strings of <= 64 characters of all UTF-8 widths; distinct_nontrivial = distinct accepted values")
     ctx.cov["decided_per_parser_and_verdict"] = ex["decided"]
+    ctx.cov["findings_observed"] = ex.get("findings_observed", {})
+    fo = ex.get("findings_observed", {}).get("counts", {})
+    if any(k.endswith(":differs") for k in fo):
+        vlib.log("  FINDING (don't-care in the spec, see Text.tla CastDontCare): ids do not cast from serde/sval-captured text: %s"
+                 % json.dumps({k: v for k, v in fo.items() if k.endswith(":differs")}))
     with open(cases) as f:
         lines = f.readlines()
     for i in (len(lines) // 7, len(lines) // 2, len(lines) - 300):
@@ -82,6 +87,7 @@ def run(ctx):
         "don't-care: well-shaped timestamps with out-of-range fields (month 00/13, second 60, year < 1970), t/z/space variants of RFC 3339, upper-case hex inside a traceparent, level texts containing characters LevelParse.tla does not classify",
         "identifier start = XID_Start or `_` (module_path!() yields `_x` segments); XID classes represented by a, é / 1 / _",
         "the full-range sweeps are oracle-free (self-consistency), see coverage.rule",
+        "forms and channels: one verdict per text whatever CastForm carries it, one text per typed value whatever ValueChannel takes it out (serde_json / sval_json trusted to transport a string); CastDontCare pairs (ids from serde/sval-captured text) are a reported finding, not asserted",
         "bounded: %s" % vlib.cfg_header(os.path.join(vlib.SPEC, cfg)),
     ]
     seen, first, rest = set(), [], []
